@@ -242,6 +242,11 @@ func genC08(w *bufio.Writer, tier string, rng *rand.Rand) {
 				xs = append(xs, a*math.Exp(rng.NormFloat64()), rng.Float64()*3*(a+1))
 			}
 			xs = append(xs, 1e-300, 1000)
+			// far upper tail (x^a and e^-x leave the float64 range long before P reaches 1)
+			for i := 0; i < 3; i++ {
+				xs = append(xs, []float64{a * 13, a * 25, 1300, 2000, 7e4, 2e6, 3e15, 1e30, 1e300, math.MaxFloat64,
+					a * logUniform(rng, 5, 1e4), logUniform(rng, 700, 1e18)}[rng.Intn(12)])
+			}
 			sortFloats(xs)
 			fmt.Fprintf(w, "mx gammagrid %s %s\n", fmtF(a), fmtFs(xs))
 			if rng.Intn(10) == 0 {
@@ -266,6 +271,32 @@ func genC08(w *bufio.Writer, tier string, rng *rand.Rand) {
 		default:
 			fmt.Fprintf(w, "mx sign %s\n", fmtF([]float64{0, math.Copysign(0, -1), 1, -1, 1e-300, -1e300, math.Inf(1), math.Inf(-1), math.NaN()}[rng.Intn(9)]))
 		}
+	}
+	// histories in fresh processes: the first calls fix how far any table inside the library has
+	// been filled; later calls ask for n around the multiples of what was asked before
+	for h := 0; h < pick(tier, 60, 1500); h++ {
+		n0 := 1 + rng.Intn(140)
+		if rng.Intn(3) == 0 {
+			n0 = 21 + rng.Intn(30)
+		}
+		fmt.Fprintf(w, "{{\nmx choose %d %d\n", n0, rng.Intn(n0+1))
+		cur := n0
+		for q := 0; q < 5; q++ {
+			m := []int{2, 2, 2, 4, 3, 1}[rng.Intn(6)]
+			nn := m*cur + []int{0, 1, 2, -1, 3, m}[rng.Intn(6)]
+			if nn < 0 || nn > 1000 {
+				break
+			}
+			kk := []int{1, 2, 3, nn / 2, nn - 3}[rng.Intn(5)]
+			if kk < 0 || kk > nn {
+				kk = 0
+			}
+			fmt.Fprintf(w, "mx choose %d %d\n", nn, kk)
+			if rng.Intn(2) == 0 {
+				cur = nn
+			}
+		}
+		fmt.Fprintf(w, "}}\n")
 	}
 	if isThorough(tier) { // every (n,k) up to 1000
 		for nn := 0; nn <= 1000; nn++ {
